@@ -27,7 +27,19 @@ func main() {
 	dump := flag.String("dump", "", "debug: print the SSA of functions whose name contains this string")
 	norm := flag.String("norm", "", "debug: print the helper call sites inlined before analysis; with a file suffix, also the transformed file")
 	flag.StringVar(&onlyMutant, "only", "", "with -mutants: run only mutants whose id contains this string")
+	symbols := flag.Bool("symbols", false, "print the symbol table of -repo (regenerates rules/pinned_symbols.txt; run only when the rules are re-confirmed against a new tree)")
 	flag.Parse()
+	if *symbols {
+		core.PinnedSymbols = ""
+		core.NoNormalize = true
+		p, err := core.Load(*repo, nil)
+		if err != nil {
+			fmt.Println(err)
+			os.Exit(2)
+		}
+		fmt.Print(core.SymbolTable(p.Pkgs))
+		return
+	}
 	if *list {
 		for _, id := range rules.IDs() {
 			fmt.Println(id)
@@ -77,6 +89,9 @@ func main() {
 		os.Exit(1)
 	}
 	if *norm != "" {
+		for _, s := range p.Renames {
+			fmt.Println("renamed", s)
+		}
 		for _, s := range p.NormSites {
 			fmt.Println("inlined", s)
 		}
